@@ -22,12 +22,32 @@ class Segmenter:
             self.maxlen = self.spec[2] if len(self.spec) > 2 else 64
         elif self.kind == "cuts":
             self.cuts = sorted(set(int(c) for c in self.spec[1]))
+        elif self.kind == "cutafter":
+            self.marker = bytes.fromhex(self.spec[1])
+            self.hist = bytearray()
+            self.cut = None
         elif self.kind == "bodycuts":
             self.rel = sorted(set(int(c) for c in self.spec[1]))
             self.hist = bytearray()   # bytes seen so far, until the first blank line is found
             self.head_end = None
 
     def take(self, avail, buf=b""):
+        if self.kind == "cutafter":
+            # one cut, right after the first occurrence of the marker (e.g. between the CR and LF of a line)
+            if self.cut is None and self.hist is not None:
+                allb = bytes(self.hist) + bytes(buf)
+                j = allb.find(self.marker)
+                if j >= 0:
+                    self.cut = j + len(self.marker)
+                    self.hist = None
+            if self.cut is not None and self.cut > self.pos:
+                n = min(avail, self.cut - self.pos)
+            else:
+                n = avail
+                if self.hist is not None:
+                    self.hist += bytes(buf[:n])
+            self.pos += n
+            return n
         if self.kind == "bodycuts":
             if self.head_end is None:
                 j = (bytes(self.hist) + bytes(buf)).find(b"\r\n\r\n")
